@@ -170,6 +170,12 @@ def exec_path(eng, fi, c, instance):
             v = V(ty, z3.Const(name, T.sort_of(ty)))
             parent.vars[name] = v
             inputs[name] = v
+        # every function nested in the same enclosing function is in scope by the time a closure runs as a callback (also the
+        # closure's own name): names the sidecar did not declare resolve to the real sibling, not to "cannot be resolved"
+        if fi.parent is not None:
+            for name, sib in fi.parent.nested.items():
+                if name not in parent.vars:
+                    parent.vars[name] = PyObj('closure', sib, parent)
     fr = Frame(fi, parent=parent)
     a = fi.node.args
     pnames = [x.arg for x in a.args]
